@@ -1,6 +1,6 @@
 (* C12 — merging copies of one tree returns the tree; TreeModifier: rewrite and repair. *)
 From Verif.Base Require Import Tactics.
-From Verif.C12 Require Import Model Proofs.
+From Verif.C12 Require Import Extracted Model Proofs.
 Local Open Scope N_scope.
 
 (* ------------------------------------------------------------------ merge of k copies *)
@@ -141,19 +141,77 @@ Qed.
 
 (* ------------------------------------------------------------------ TreeModifier, value level *)
 
-Lemma finish_value rd old nt ch :
-  result_tree old (finish rd old (nt, ch)) = if rd then (if ch then nt else old) else [].
+(* insertion sort: permutation, identity on sorted lists *)
+Lemma insert_in n l x : In x (insert_node n l) <-> x = n \/ In x l.
 Proof.
-  unfold finish. destruct rd.
+  induction l as [|a l IH]; cbn [insert_node]; [cbn; intuition|].
+  destruct (n_name n <=? n_name a); cbn [In]; [intuition|]. rewrite IH. intuition.
+Qed.
+Lemma sort_tree_in t x : In x (sort_tree t) <-> In x t.
+Proof.
+  induction t as [|a t IH]; [reflexivity|]. unfold sort_tree in *. cbn [fold_right]. rewrite insert_in, IH. cbn [In]. intuition.
+Qed.
+Lemma sort_sorted_id t : sorted t -> sort_tree t = t.
+Proof.
+  induction t as [|n r IH]; intro Hs; [reflexivity|]. destruct (sorted_inv _ _ Hs) as [Hr Hlt].
+  unfold sort_tree in *. cbn [fold_right]. rewrite (IH Hr). destruct r as [|x r']; [reflexivity|].
+  cbn [insert_node]. specialize (Hlt x (or_introl eq_refl)).
+  destruct (n_name n <=? n_name x) eqn:E; [reflexivity | lia].
+Qed.
+
+(* non-strict sortedness (a renamed node may collide with a sibling's name) *)
+Fixpoint sorted_le_names (l : list N) : bool :=
+  match l with
+  | [] => true
+  | a :: r => match r with [] => true | b :: _ => (a <=? b) && sorted_le_names r end
+  end.
+Definition sorted_le (t : tree) : Prop := sorted_le_names (map n_name t) = true.
+
+Lemma insert_sorted_le n l : sorted_le l -> sorted_le (insert_node n l).
+Proof.
+  unfold sorted_le. induction l as [|a l IH]; intro H; [reflexivity|]. cbn [insert_node].
+  destruct (n_name n <=? n_name a) eqn:E.
+  - cbn [map]. change (((n_name n <=? n_name a) && sorted_le_names (map n_name (a :: l)))%bool = true).
+    rewrite E, H. reflexivity.
+  - assert (sorted_le_names (map n_name l) = true) as Hl.
+    { cbn [map] in H. destruct l as [|b l']; [reflexivity|]. cbn [map] in H.
+      change (((n_name a <=? n_name b) && sorted_le_names (map n_name (b :: l')))%bool = true) in H.
+      apply andb_true_iff in H. apply H. }
+    specialize (IH Hl). cbn [map]. destruct (insert_node n l) as [|b r] eqn:Ei; [reflexivity|].
+    cbn [map]. change (((n_name a <=? n_name b) && sorted_le_names (map n_name (b :: r)))%bool = true).
+    rewrite IH, andb_true_r.
+    assert (In b (insert_node n l)) as Hb by (rewrite Ei; left; reflexivity).
+    apply insert_in in Hb. destruct Hb as [->|Hb]; [lia|].
+    destruct l as [|b' l']; [destruct Hb|]. cbn [insert_node] in Ei.
+    destruct (n_name n <=? n_name b'); inv Ei; [lia|].
+    cbn [map] in H. change (((n_name a <=? n_name b) && sorted_le_names (map n_name (b :: l')))%bool = true) in H.
+    apply andb_true_iff in H. destruct H as [H _]. lia.
+Qed.
+
+Lemma sort_tree_sorted_le t : sorted_le (sort_tree t).
+Proof. induction t as [|a t IH]; [reflexivity|]. unfold sort_tree in *. cbn [fold_right]. apply insert_sorted_le. exact IH. Qed.
+
+Lemma finish_changed_sorted rd old res st : finish rd old res = Changed st -> sorted_le st.
+Proof.
+  unfold finish. change modifier_sorts_changed_trees with true. cbv iota.
+  destruct (if rd then res else ([], true)) as [nt ch].
+  destruct (ch && negb (tree_eqb (sort_tree nt) old))%bool; [|discriminate]. intro H. inv H. apply sort_tree_sorted_le.
+Qed.
+
+Lemma finish_value rd old nt ch :
+  result_tree old (finish rd old (nt, ch)) = if rd then (if ch then sort_tree nt else old) else [].
+Proof.
+  unfold finish. change modifier_sorts_changed_trees with true. cbv iota. destruct rd.
   - destruct ch; cbn [andb]; [|reflexivity].
-    destruct (tree_eqb nt old) eqn:E; cbn [negb result_tree]; [symmetry; apply tree_eqb_sound; exact E | reflexivity].
-  - cbn [andb]. destruct (tree_eqb [] old) eqn:E; cbn [negb result_tree]; [symmetry; apply tree_eqb_sound; exact E | reflexivity].
+    destruct (tree_eqb (sort_tree nt) old) eqn:E; cbn [negb result_tree]; [symmetry; apply tree_eqb_sound; exact E | reflexivity].
+  - cbn [andb]. change (sort_tree []) with ([] : tree).
+    destruct (tree_eqb [] old) eqn:E; cbn [negb result_tree]; [symmetry; apply tree_eqb_sound; exact E | reflexivity].
 Qed.
 
 Lemma finish_not_removed rd old res : finish rd old res <> Removed.
 Proof.
   unfold finish. destruct (if rd then res else ([], true)) as [nt ch].
-  destruct (ch && negb (tree_eqb nt old))%bool; discriminate.
+  destruct (ch && negb (tree_eqb _ old))%bool; discriminate.
 Qed.
 
 Lemma finish_flag rd old nt ch : rd = true -> ch = false -> finish rd old (nt, ch) = Unchanged.
@@ -265,24 +323,50 @@ Section RewriteProofs.
          end.
   Proof. unfold rw_visit. destruct (modn n); reflexivity. Qed.
 
-  Lemma rw_tree_from_fold path s :
+  Lemma prune_node_name path n n' : prune_node path n = Some n' -> n_name n' = n_name n.
+  Proof.
+    destruct n as [a k m t c s]. cbn [prune_node]. destruct (excl _ _); [discriminate|].
+    destruct (Hframe (Node a k m t c s)) as [F1 _]. destruct k; intro H; inv H; rewrite ?set_sub_name; exact F1.
+  Qed.
+
+  (* pruning keeps names and order: a strictly sorted level stays strictly sorted *)
+  Lemma prune_sorted path s : sorted s -> sorted (prune path s) /\
+    forall y, In y (prune path s) -> exists x, In x s /\ n_name y = n_name x.
+  Proof.
+    induction s as [|n r IH]; intro Hs; [split; [apply sorted_nil | intros y []]|].
+    destruct (sorted_inv _ _ Hs) as [Hr Hlt]. destruct (IH Hr) as [I1 I2].
+    unfold prune in *. cbn [flat_map]. destruct (prune_node path n) as [n'|] eqn:E; cbn [opt_list app].
+    - pose proof (prune_node_name _ _ _ E) as Hn. split.
+      + unfold sorted in *. cbn [map]. destruct (flat_map (fun x => opt_list (prune_node path x)) r) as [|b l] eqn:Eb; [reflexivity|].
+        change (((n_name n' <? n_name b) && sorted_names (map n_name (b :: l)))%bool = true).
+        rewrite I1, andb_true_r. destruct (I2 b (or_introl eq_refl)) as [x [Hx Ex]]. specialize (Hlt x Hx). lia.
+      + intros y [<-|Hy]; [exists n; split; [left; reflexivity | exact Hn]|].
+        destruct (I2 y Hy) as [x [Hx Ex]]. exists x. split; [right; exact Hx | exact Ex].
+    - split; [exact I1|]. intros y Hy. destruct (I2 y Hy) as [x [Hx Ex]]. exists x. split; [right; exact Hx | exact Ex].
+  Qed.
+
+  Lemma rw_tree_from_fold path s : sorted s ->
     (fst (fold_nodes (mn path) s) = prune path s /\ (snd (fold_nodes (mn path) s) = false -> prune path s = s)) ->
     result_tree s (mt path s) = prune path s.
   Proof.
-    intros [H1 H2]. unfold mt, modify_tree. fold (mn path).
+    intros Hs [H1 H2]. unfold mt, modify_tree. fold (mn path).
     destruct (fold_nodes (mn path) s) as [nt ch] eqn:E. cbn [fst snd] in *.
-    rewrite finish_value. destruct ch; [exact H1 | symmetry; apply H2; reflexivity].
+    rewrite finish_value. destruct ch; [|symmetry; apply H2; reflexivity].
+    rewrite H1. apply sort_sorted_id. apply prune_sorted. exact Hs.
   Qed.
 
-  Lemma rw_node_value : forall d n, (depth_node n <= d)%nat -> forall path,
+  Lemma rw_node_value : forall d n, (depth_node n <= d)%nat -> wf_node n = true -> forall path,
     fst (mn path n) = prune_node path n /\ (snd (mn path n) = false -> prune_node path n = Some n).
   Proof.
-    induction d as [|d IH]; intros n Hd path; [pose proof (depth_sub n); lia|].
+    induction d as [|d IH]; intros n Hd Hwf path; [pose proof (depth_sub n); lia|].
     destruct n as [a k m t c s].
+    assert (sorted s /\ forall x, In x s -> wf_node x = true) as [Hss Hwfc].
+    { cbn [wf_node] in Hwf. repeat (apply andb_true_iff in Hwf; destruct Hwf as [Hwf ?]).
+      split; [assumption | apply forallb_forall; assumption]. }
     assert (forall x, In x s -> (depth_node x <= d)%nat) as Hch.
     { intros x Hx. pose proof (depth_in s x Hx) as Hdx. cbn [depth_node] in Hd. unfold depth in Hdx. lia. }
     assert (result_tree s (mt (path ++ [a]) s) = prune (path ++ [a]) s) as Hsub.
-    { apply rw_tree_from_fold. apply fold_nodes_spec. intros x Hx. apply IH. apply Hch. exact Hx. }
+    { apply rw_tree_from_fold; [exact Hss|]. apply fold_nodes_spec. intros x Hx. apply IH; [apply Hch; exact Hx | apply Hwfc; exact Hx]. }
     destruct (Hframe (Node a k m t c s)) as [F1 [F2 [F3 F4]]].
     pose proof (Hflag (Node a k m t c s)) as Hfl.
     unfold mn. rewrite modify_node_unfold. rewrite rw_visit_unfold.
@@ -302,11 +386,15 @@ Section RewriteProofs.
   Qed.
 
   (* RESULT: the tree a rewritten snapshot points to is the input pruned of exactly the matched paths *)
-  Lemma rewrite_value path t : excl path true = false ->
+  Lemma rewrite_value path t : wf_tree t = true -> path = [] \/ excl path true = false ->
     result_tree t (rewrite_tree excl modn path t) = prune path t.
   Proof.
-    intro Hroot. unfold rewrite_tree. rewrite Hroot. apply rw_tree_from_fold. apply fold_nodes_spec.
-    intros x _. eapply rw_node_value. apply Nat.le_refl.
+    intros Hwf Hroot. unfold wf_tree in Hwf. apply andb_true_iff in Hwf. destruct Hwf as [Hs Hwf]. rewrite forallb_forall in Hwf.
+    assert (result_tree t (mt path t) = prune path t) as H.
+    { apply rw_tree_from_fold; [exact Hs|]. apply fold_nodes_spec.
+      intros x Hx. eapply rw_node_value; [apply Nat.le_refl | apply Hwf; exact Hx]. }
+    unfold rewrite_tree. change rewrite_root_is_matched with false. cbn [andb].
+    destruct Hroot as [-> | Hroot]; [exact H|]. destruct path; [exact H|]. rewrite Hroot. exact H.
   Qed.
 
   (* path view of `prune`: the kept (path, node) pairs — a node is listed iff neither it nor an ancestor
@@ -358,12 +446,12 @@ Section RewriteProofs.
     unfold prune, kept, paths. induction t as [|x r IH]; [reflexivity|]. cbn [flat_map].
     rewrite flat_map_app, !map_app, IH. f_equal. eapply prune_paths_node. apply Nat.le_refl.
   Qed.
-  Lemma rewrite_top path t : excl path true = false ->
+  Lemma rewrite_top path t : wf_tree t = true -> path = [] \/ excl path true = false ->
     let r := result_tree t (rewrite_tree excl modn path t) in
     r = prune path t /\
     map (fun pn => (fst pn, strip (snd pn))) (paths path r) =
     map (fun pn => (fst pn, strip_mod (snd pn))) (kept path t).
   Proof.
-    intro H. cbv zeta. rewrite (rewrite_value path t H). split; [reflexivity | apply prune_paths].
+    intros Hwf H. cbv zeta. rewrite (rewrite_value path t Hwf H). split; [reflexivity | apply prune_paths].
   Qed.
 End RewriteProofs.
